@@ -3,7 +3,12 @@ import TinkVerif.Gen.MldsaAlgebra
 /-! Scalar arithmetic of ML-DSA: lemmas about the **regenerated** definitions
     (TinkVerif/Gen/MldsaAlgebra.lean, emitted from internal/signature/mldsa/algebra.go on every run).
     Discipline: arithmetic facts are context-free `omega` lemmas over plain variables; the theorems
-    about generated functions only `unfold` and `simp only` (see DESIGN.md §8, omega/defeq note). -/
+    about generated functions only `unfold` and `simp only` (see DESIGN.md §8, omega/defeq note).
+
+    Names: the translator's output is alpha-normalised. `fn.v<k>` is the k-th auxiliary definition of
+    `fn` in canonical data-flow order, independent of the Go local's name; the comment in front of
+    each function in Gen/MldsaAlgebra.lean maps it back (at the time of writing: `reduceOnce.v1` = c;
+    `mul.v1 … v8` = prod, lo, hi, hiLo, carry, quoHi, quoLo, quo). -/
 namespace TinkVerif.Gen.Mldsa
 open TinkVerif
 
@@ -14,7 +19,7 @@ theorem toUnsigned_ofNat (x : Nat) (h : x < 4294967296) : GoSem.toUnsigned 32 (I
 
 theorem reduceOnce_spec (a : Nat) (h : a < 2147483648) :
     reduceOnce a = if a ≥ 8380417 then a - 8380417 else a := by
-  unfold reduceOnce reduceOnce.c
+  unfold reduceOnce reduceOnce.v1
   by_cases hq : a ≥ 8380417
   · have hc : GoSem.ctLessOrEq (8380417 : Int) (Int.ofNat a) = 1 := by
       unfold GoSem.ctLessOrEq
@@ -60,17 +65,17 @@ theorem prod_bound (a b : Nat) (ha : a < 8380417) (hb : b < 8380417) : a * b ≤
   have : a * b ≤ 8380416 * 8380416 := Nat.mul_le_mul (by omega) (by omega)
   omega
 
-theorem mul_prod (a b : Nat) (ha : a < 8380417) (hb : b < 8380417) : mul.prod a b = a * b := by
-  unfold mul.prod; have := prod_bound a b ha hb; omega
+theorem mul_prod (a b : Nat) (ha : a < 8380417) (hb : b < 8380417) : mul.v1 a b = a * b := by
+  unfold mul.v1; have := prod_bound a b ha hb; omega
 
-theorem mul_hi (a b : Nat) (ha : a < 8380417) (hb : b < 8380417) : mul.hi a b = (a * b) / 4294967296 * 8396807 := by
-  unfold mul.hi; rw [mul_prod a b ha hb, shr32]
+theorem mul_hi (a b : Nat) (ha : a < 8380417) (hb : b < 8380417) : mul.v3 a b = (a * b) / 4294967296 * 8396807 := by
+  unfold mul.v3; rw [mul_prod a b ha hb, shr32]
   have := prod_bound a b ha hb
   generalize a * b = P at *
   omega
 
-theorem mul_lo (a b : Nat) (ha : a < 8380417) (hb : b < 8380417) : mul.lo a b = (a * b) % 4294967296 * 8396807 := by
-  unfold mul.lo; rw [mul_prod a b ha hb, and_mask32]
+theorem mul_lo (a b : Nat) (ha : a < 8380417) (hb : b < 8380417) : mul.v2 a b = (a * b) % 4294967296 * 8396807 := by
+  unfold mul.v2; rw [mul_prod a b ha hb, and_mask32]
   generalize a * b = P
   omega
 
@@ -94,9 +99,9 @@ theorem or_eq_add18' (x B : Nat) (hB : B < 262144) : x * 262144 ||| B = x * 2621
   rw [← shl18, or_eq_add18 _ _ hB, shl18]
 
 theorem mul_quo (a b : Nat) (ha : a < 8380417) (hb : b < 8380417) :
-    mul.quo a b = (a * b * 8396807) / 70368744177664 := by
+    mul.v8 a b = (a * b * 8396807) / 70368744177664 := by
   have hP := prod_bound a b ha hb
-  unfold mul.quo mul.quoHi mul.quoLo mul.carry mul.hiLo
+  unfold mul.v8 mul.v6 mul.v7 mul.v5 mul.v4
   simp only [mul_hi a b ha hb, mul_lo a b ha hb, and_mask32, and_mask6, shr32, shr46, shl32, shl18]
   obtain ⟨hhib, hlob, hT⟩ := hib (a * b) hP
   obtain ⟨q1, q2, q3⟩ := quo_words _ _ hhib hlob hT
